@@ -21,7 +21,7 @@ META = dict(
     id='C11',
     level='proof',
     technique='Coq proof about the modelled mechanisms (buffer-copy arithmetic over a site list regenerated from the source, parser nesting depth, division guards, period-stepping variant) + differential correspondence of the extracted model against ledger on boundary inputs + observation (signals, timeouts, exit status, ASan/UBSan in the thorough tier) on boundary, truncated and mutated inputs',
-    level_text='PARTIAL. Proved in coq/Properties/Properties_C11.v: (a) for every fixed char buffer of src/*.cc,*.h and every statement that writes through it (list regenerated from the source on each run; unclassifiable statements fail closed) the bytes stored never exceed the capacity, for every input length - except two sites that are refuted with witnesses (findings); the READ_INTO macro is transcribed and its bound proved; (b) the nesting depth of the recursive-descent expression parser is unbounded on the current source (finding) and bounded by L if a guard L is present; (c) every division cell of the amount/balance/value model tests the operand it divides by, so a zero divisor never yields a quotient; (d) the period-stepping loop of date_interval_t::stabilize has a strictly increasing variant for every quantity the period parser accepts, and never terminates for a zero quantity (which the source rejects). The model is tied to the code by the regenerated tables and by comparing predicted outcome classes with freshly built ledger on boundary inputs. NOT covered: memory safety, absence of undefined behaviour and bounded stack use of the compiled program in general (heap objects, iterators, std::string, boost, the report/filter code, integer overflow) - for these the check only observes (signals, timeouts, exit status, sanitizer reports in the thorough tier) on boundary-directed, truncated and mutated inputs.',
+    level_text='PARTIAL. Proved in coq/Properties/Properties_C11.v: (a) for every fixed char buffer of src/*.cc,*.h and every statement that writes through it (list regenerated from the source on each run; unclassifiable statements fail closed) the bytes stored never exceed the capacity, for every input length; the READ_INTO macro is transcribed and its bound proved; (b) every expression the recursive-descent parser accepts nests at most src_parse_depth_limit deep and fetches at most src_expr_token_limit tokens (both constants and their guards are read from the source), while without those guards depth and length are unbounded; (c) every division cell of the amount/balance/value model tests the operand it divides by, so a zero divisor never yields a quotient; (d) the period-stepping loop of date_interval_t::stabilize has a strictly increasing variant for every quantity the period parser accepts, and never terminates for a zero quantity (which the source rejects); the guards added by the repairs (query nesting/terms, roundto places, conversion cycles, missing expression argument, script loop, generated transactions without journal, find_account frame buffer) are recognised in the source and their presence is a theorem. The model is tied to the code by the regenerated tables and by comparing predicted outcome classes with freshly built ledger on boundary inputs (every site constant +/-2, 255/256/257 parentheses, 4095/4096/4097 tokens, 2047/2048 query terms, 65535/65536 places, ...). NOT covered: memory safety, absence of undefined behaviour and bounded stack use of the compiled program in general (heap objects, iterators, std::string, boost, the report/filter code, integer overflow) - for these the check only observes (signals, timeouts, exit status, sanitizer reports in the thorough tier) on boundary-directed, truncated and mutated inputs; two use-after-free defects found that way are listed as findings (F46, F48).',
     level_note='Trusted: Coq kernel; the translator harness/translators/c11_buffers.py (narrow patterns, fail closed) for the site list and guard constants; extraction + OCaml driver + python harness for the correspondence; the calendar is not modelled in (d) (month steps only by the lower bound 28 days per month); the assumption that `line` in textual.cc always points into parse_context_t::linebuf. Sanitizer observation exists only in the thorough tier.',
     design_ref='DESIGN.md section 7 C11, section 12',
     assumptions=['stack limit of the test environment is the default 8 MiB (the crash depth of findings F4/F38 depends on it)',
@@ -214,8 +214,6 @@ def construct_table():
         lambda n: ('2020/01/01 p\n  A  $1 ; %s\n  B\n' % ('n' * (n - 10)), ['bal']) if n > 10 else None)
     add('directive-line', ('textual.cc', 'general_directive', 'StrcpyLine', None),
         lambda n: ('account %s\n2020/01/01 p\n  A  $1\n  B\n' % ('D' * (n - 8)), ['bal']) if n > 8 else None)
-    add('account-first-segment', ('account.cc', 'find_account', 'StrncpyBounded', None),
-        lambda n: (xact('  %s:B  $1' % ('A' * n)), ['bal']))
     add('option-name', ('option.cc', 'find_option', 'CopyGuarded', None),
         lambda n: ('2020/01/01 p\n  A  $1\n  B\n', ['bal', '--' + 'o' * n]) if n > 0 else None,
         expect=lambda o, n: 'error' if o != 'Overrun' else None)
@@ -225,12 +223,9 @@ def construct_table():
     add('price-datetime', ('times.cc', 'parse_datetime', 'StrcpyGuarded', None),
         lambda n: ('P 2020/01/01 00:00:0%s AAA $1\n' % ('0' * (n - 18)), ['prices']) if n >= 19 else None,
         expect=lambda o, n: None)
-    add('script-line', ('main.cc', 'main', 'Getline', None),
-        lambda n: ('2020/01/01 p\n  A  $1\n  B\n', ['--script', '@script.txt@']) if n >= 4 else None,
-        expect=lambda o, n: 'ok' if o == 'Complete' else None, lengths=[4, 100, 1020, 1021, 1022])
-    add('repl-push-depth', ('global.cc', 'prompt_string', 'IndexLoopUnbounded', None),
-        lambda n: ('2020/01/01 p\n  A  $1\n  B\n', []), expect=lambda o, n: 'ok' if n <= 40 else None,
-        lengths=[1, 5, 28, 29, 30, 31, 32, 33, 40])
+    add('repl-push-depth', ('global.cc', 'prompt_string', 'IndexLoopBounded', None),
+        lambda n: ('2020/01/01 p\n  A  $1\n  B\n', []), expect=lambda o, n: 'ok',
+        lengths=[1, 5, 28, 29, 30, 31, 32, 33, 40, 200])
     return T
 
 
@@ -261,8 +256,6 @@ def build_special(c, n):
     """constructs whose input is not a journal/argv pair only"""
     if c['name'] == 'csv-line':
         return dict(files={'in.csv': 'date,payee,amount\n2020/01/02,%s,$1\n' % ('p' * max(0, n - 15))})
-    if c['name'] == 'script-line':
-        return dict(files={'script.txt': 'bal ' + 'A' * (n - 4) + '\n'})
     if c['name'] == 'repl-push-depth':
         return dict(stdin=('push\n' * n + 'bal\n').encode(), repl=True)
     return {}
@@ -373,8 +366,12 @@ def escapes(ctx, res):
 def nesting(ctx, res, binary=None, env=None, sanitizer=False):
     rng = ctx.rng
     texts = []
-    for d in [0, 1, 2, 3, 5, 10, 31, 100, 316, 1000]:
+    for d in [0, 1, 2, 3, 5, 10, 31, 100, 254, 255, 256, 257, 258, 316, 1000]:
         texts.append(('(' * d + '1' + ')' * d, 'balanced'))
+    for k in [1, 2, 100, 2046, 2047, 2048, 2049, 2050]:
+        texts.append(('+'.join(['1'] * k), 'chain'))                 # 2k - 1 tokens, and the end of input
+    texts.append(('+'.join(['1'] * 2048) + ' 1', 'chain-then-junk'))     # 4096 tokens: the last one is only looked at
+    texts.append(('+'.join(['1'] * 2048) + ' 1 1', 'chain-then-junk'))
     for d in [1, 3, 10, 100]:
         texts.append(('(' * d + '1' + ')' * (d - 1), 'missing-close'))
         texts.append(('(' * d + '1+' + ')' * d, 'dangling-operator'))
@@ -401,10 +398,11 @@ def nesting(ctx, res, binary=None, env=None, sanitizer=False):
     deep = []
     for d in [3162, 10000, 31623]:
         deep.append(Case('expr-nesting-depth', None, ['eval', '(' * d + '1' + ')' * d], info=dict(depth=d)))
-    for k in [1000, 20000, 60000]:
+    for k in [20000, 60000]:
         deep.append(Case('expr-operator-chain', None, ['eval', '+'.join(['1'] * k)], info=dict(terms=k)))
     for d in [2000, 20000]:
         deep.append(Case('query-nesting-depth', '2020/01/01 p\n  A  $1\n  B\n', ['reg'] + ['('] * d + ['A'] + [')'] * d, info=dict(depth=d)))
+        deep.append(Case('query-term-count', '2020/01/01 p\n  A  $1\n  B\n', ['reg'] + ['a'] * (d * 3), info=dict(terms=d * 3)))
         deep.append(Case('format-nesting-depth', '2020/01/01 p\n  A  $1\n  B\n', ['reg', '--format', '%(' + '(' * d + '1' + ')' * d + ')\n'], info=dict(depth=d)))
         deep.append(Case('expr-negation-chain', None, ['eval', '-' * d + '1'], info=dict(depth=d)))
         deep.append(Case('expr-not-chain', None, ['eval', '!' * d + '1'], info=dict(depth=d)))
@@ -418,7 +416,7 @@ def nesting(ctx, res, binary=None, env=None, sanitizer=False):
         add_violations(res, case, judge(case, sanitizer))
         got = obs_class(case)
         exp = 'ok' if ml.split(' ')[1] == 'Ok' else 'error'
-        if '(' in case.info['text']:
+        if '(' in case.info['text'] or len(case.info['text']) > 4000:
             res.nontrivial.add('nest:' + case.info['text'][:80] + ':%d' % len(case.info['text']))
         if got.startswith('signal') or got == 'timeout':
             continue
@@ -427,10 +425,15 @@ def nesting(ctx, res, binary=None, env=None, sanitizer=False):
         elif exp == 'ok' and case.info['kind'] in ('balanced', 'extra-close') and case.result[1].strip() != b'1':
             res.disagreements.append(dict(name='C11/expr-nesting-value', case=case.info['text'][:300],
                                           impl=case.result[1][:50].decode('latin-1'), model='1'))
+    # beyond every limit of the source: an error message and a non-zero status, never a signal
     for case in deep:
         res.evaluations += 1
+        res.traces += 1
         res.count('deep:' + case.construct)
         add_violations(res, case, judge(case, sanitizer))
+        got = obs_class(case)
+        if got not in ('error', 'timeout') and not got.startswith('signal'):
+            res.disagreements.append(dict(name='C11/over-limit:' + case.construct, case=str(case.info), impl=got, model='error'))
     if len(res.samples) < 4:
         res.samples.append(dict(construct='expr-nesting', expr=cases[7].info['text'][:40] + '...', impl=obs_class(cases[7]), model=model[7]))
 
@@ -620,21 +623,32 @@ def long_tokens(ctx, res, binary=None, env=None, sanitizer=False):
             f = ('%Y-%m-%d ' * 1000)[:n]
             cases.append(Case('date-format-length', j, ['reg', opt, f], info=dict(n=n)))
             cases.append(Case('date-format-literal-length', j, ['reg', opt, '%Y' + 'x' * n], info=dict(n=n)))
-    for n in [1]:
-        cases.append(Case('script-file-unreadable', j, ['--script', '/nonexistent/c11-%d' % n], info=dict(n=n)))
-    cases.append(Case('script-line-length', j, ['--script', '@script.txt@'], files={'script.txt': 'bal ' + 'A' * 1100 + '\n'}))
-    cases.append(Case('repl-push-depth', j, [], stdin=('push\n' * 5000 + 'bal\n').encode(), repl=True, info=dict(n=5000)))
+    E = lambda cls: dict(expect=cls)
+    cases.append(Case('script-file-unreadable', j, ['--script', '/nonexistent/c11-1'], info=E('error')))
+    for n in [100, 1021, 1022, 1023, 1024, 1100, 4000]:
+        cases.append(Case('script-line-length', j, ['--script', '@script.txt@'], files={'script.txt': 'bal ' + 'A' * (n - 4) + '\nbal\n'}, info=E('ok')))
+    cases.append(Case('script-line-length', j, ['--script', '@script.txt@'], files={'script.txt': '# c\n  bal A\nreg B'}, info=E('ok')))
+    cases.append(Case('repl-push-depth', j, [], stdin=('push\n' * 5000 + 'bal\n').encode(), repl=True, info=E('ok')))
+    cases.append(Case('repl-push-depth', j, [], stdin=('push\n' * 40 + 'pop\n' * 40 + 'bal\n').encode(), repl=True, info=E('ok')))
     # deep structures other than expressions
     for d in [100, 400, 1500, 2040]:
-        cases.append(Case('account-nesting-depth', '2020/01/01 p\n  ' + 'x:' * d + 'y  $1\n  B\n', ['bal'], info=dict(n=d)))
+        cases.append(Case('account-nesting-depth', '2020/01/01 p\n  ' + 'x:' * d + 'y  $1\n  B\n', ['bal'], info=E('ok')))
+        cases.append(Case('account-nesting-depth', '2020/01/01 p\n  ' + 'x:' * d + 'y  $1\n  B\n', ['reg'], info=E('ok')))
+    # account.cc find_account: assert(sep < 256) on the first segment
+    for n, cls in ((254, 'ok'), (255, 'ok'), (256, 'error'), (257, 'error'), (4000, 'error')):
+        cases.append(Case('account-first-segment', '2020/01/01 p\n  %s:B  $1\n  C\n' % ('A' * n), ['bal'], info=E(cls)))
+    # option names around the 126-character limit: always "Illegal option"
+    for n in (125, 126, 127, 128, 129):
+        cases.append(Case('option-name', j, ['bal', '--' + 'o' * n], info=E('error')))
     for d in [10, 100, 1000]:
         cases.append(Case('apply-account-depth', 'apply account a\n' * d + j + 'end apply account\n' * d, ['bal'], info=dict(n=d)))
         cases.append(Case('alias-chain-length', ''.join('alias a%d=a%d\n' % (i, i + 1) for i in range(d)) + '2020/01/01 p\n  a0  $1\n  B\n',
                           ['bal', '--recursive-aliases'], info=dict(n=d)))
     # a conversion directive naming one commodity on both sides
-    for t in ['C 1 a = 2 a\n']:
-        cases.append(Case('commodity-conversion-self', t + '2020/01/01 p\n  A  2 a\n  A  $2\n  B\n', ['bal']))
-    cases.append(Case('commodity-conversion', 'C 1.00 Kb = 1024 b\nC 1.00 Mb = 1024 Kb\n2020/01/01 p\n  A  2000000 b\n  B\n', ['bal']))
+    for t in ['C 1 a = 2 a\n', 'C $4 = $-110\n', 'C 1 a = 2 b\nC 1 b = 2 a\n', 'C 1 a = 2 b\nC 1 b = 2 c\nC 1 c = 2 a\n']:
+        cases.append(Case('commodity-conversion-self', t + '2020/01/01 p\n  A  2 a\n  A  $2\n  B\n', ['bal'], info=E('error')))
+    cases.append(Case('commodity-conversion', 'C 1.00 Kb = 1024 b\nC 1.00 Mb = 1024 Kb\n2020/01/01 p\n  A  2000000 b\n  B\n', ['bal'], info=E('ok')))
+    cases.append(Case('commodity-conversion', 'C 1 a = 2 b\nC 1 b = 2 c\n2020/01/01 p\n  A  2 a\n  B\n', ['bal'], info=E('ok')))
     # the xact/entry command adds the drafted transaction to the journal after the parse context is gone
     cases.append(Case('draft-auto-xact-check', '= /Checking/\n  check account =~ /Foo/\n2010/06/24 Sample\n  Expenses:Food  $100\n  Assets:Checking\n',
                       ['xact', 'Sample'] + NOW))
@@ -643,12 +657,26 @@ def long_tokens(ctx, res, binary=None, env=None, sanitizer=False):
     cases.append(Case('draft-auto-xact', '= /Checking/\n  (Budget)  $1\n2010/06/24 Sample\n  Expenses:Food  $100\n  Assets:Checking\n',
                       ['xact', 'Sample'] + NOW))
     # roundto with an enormous number of places: 10^places is computed
-    for e in ('roundto(1.5, 3)', 'roundto(1.5, -3)', 'roundto(1.5, 100000)', 'roundto(-123.45, 2147483648)'):
-        cases.append(Case('roundto-huge-places', None, ['eval', e]))
-    # account("..").any / .all without an argument
-    for e in ('account("A").any', 'account("A").all', 'account("A").any()', 'account("A").all(1)', 'account("A").any(amount > 0)'):
-        cases.append(Case('expr-any-all-no-argument', j, ['reg', '-l', e] + NOW))
-    cases.append(Case('expr-any-all-no-argument', j + 'check account("A").all\n', ['bal'] + NOW))
+    limq = []
+    for n in (0, 3, -3, 65534, 65535, 65536, -65535, -65536, 100000, 2147483647):
+        cases.append(Case('roundto-huge-places', None, ['eval', 'roundto(1.5, %d)' % n], info=dict(limit=[('roundto-places', abs(n))])))
+    for n in (2147483648, 99999999999):         # wrap around in to_int, still far beyond the limit
+        cases.append(Case('roundto-huge-places', None, ['eval', 'roundto(-123.45, %d)' % n], info=E('error')))
+    # query nesting and query length.  A chain of k terms is printed as k nested parentheses and
+    # parsed again as an expression, so the expression nesting limit applies to it as well.
+    for k in (2, 254, 255, 256, 257, 258, 2046, 2047, 2048, 2049, 20000):
+        cases.append(Case('query-term-count', j, ['reg'] + ['A'] * k, info=dict(limit=[('query-terms', k + 1), ('expr-depth', k)])))
+    for k in (255, 256, 257):
+        cases.append(Case('query-term-count', j, ['reg'] + ' or '.join(['A'] * k).split(' '), info=dict(limit=[('query-terms', k + 1), ('expr-depth', k)])))
+    for d in (1, 254, 255, 256, 257, 258, 20000):
+        cases.append(Case('query-nesting-depth', j, ['reg'] + ['('] * d + ['A'] + [')'] * d, info=dict(limit=[('query-depth', d)])))
+    cases.append(Case('query-prefix-chain', j, ['reg'] + ['code'] * 20000 + ['x'], info=E('error')))
+    # any / all without an argument
+    for e, cls in (('account("A").any', 'error'), ('account("A").all', 'error'), ('account("A").any()', 'error'), ('account("A").all(1)', 'ok'),
+                   ('account("A").any(amount > 0)', 'ok'), ('any', 'error'), ('all', 'error'), ('any()', 'error'), ('all()', 'error'),
+                   ('any(amount > 0)', 'ok'), ('all(amount > 0)', 'ok')):
+        cases.append(Case('expr-any-all-no-argument', j, ['reg', '-l', e] + NOW, info=E(cls)))
+    cases.append(Case('expr-any-all-no-argument', j + 'check account("A").all\n', ['bal'] + NOW, info=E('error')))
     # --by-payee with an account/payee rewrite
     for extra in (['--account', 'payee'], ['--payee', 'account'], ['--account', 'payee', '--flat']):
         cases.append(Case('by-payee-account-rewrite', j, ['bal', '--by-payee'] + extra + NOW))
@@ -656,14 +684,36 @@ def long_tokens(ctx, res, binary=None, env=None, sanitizer=False):
     # options that reach through the temporary transaction of generated budget postings
     bj = '~ Monthly\n  Expenses:Rent  $550.00\n  Assets\n\n2020/01/15 p\n  Expenses:Rent  $500.00\n  Assets\n'
     for extra in (['--anon'], ['--account', 'payee'], ['--payee', 'account'], ['--pivot', 'tag'], []):
-        cases.append(Case('budget-temporary-xact', bj, ['budget'] + extra + NOW))
-        cases.append(Case('budget-temporary-xact', bj, ['reg', '--budget'] + extra + NOW))
-        cases.append(Case('forecast-temporary-xact', bj, ['reg', '--forecast-while', 'd<[2022]'] + extra + NOW))
+        cases.append(Case('budget-temporary-xact', bj, ['budget'] + extra + NOW, info=E('ok')))
+        cases.append(Case('budget-temporary-xact', bj, ['reg', '--budget'] + extra + NOW, info=E('ok')))
+        cases.append(Case('forecast-temporary-xact', bj, ['reg', '--forecast-while', 'd<[2022]'] + extra + NOW, info=E('ok')))
     run_cases(ctx, cases, 'long', binary, env)
-    for c in cases:
+    # the numeric guards: the expected class comes from the limits regenerated from the source
+    lim_lines, lim_at = [], []
+    for i, c in enumerate(cases):
+        for which, n in c.info.get('limit', []):
+            lim_lines.append(lib.sx(['limit', 'q%d' % len(lim_lines), which, n]))
+            lim_at.append(i)
+    verdict = {}
+    if lim_lines and not sanitizer:
+        for i, l in zip(lim_at, lib.run_model('C11', lim_lines)):
+            verdict[i] = verdict.get(i, True) and l.endswith(' within')
+    for i, c in enumerate(cases):
         res.evaluations += 1
         res.count('long:' + c.construct)
         add_violations(res, c, judge(c, sanitizer))
+        exp = c.info.get('expect')
+        if i in verdict:
+            exp = 'ok' if verdict[i] else 'error'
+            res.nontrivial.add('limit:%s:%s' % (c.construct, c.info['limit']))
+        if exp and not sanitizer:
+            res.traces += 1
+            got = obs_class(c)
+            if c.repl and got == 'other:0':
+                got = 'ok'
+            if got != exp and got != 'timeout' and not got.startswith('signal'):
+                res.disagreements.append(dict(name='C11/directed:' + c.construct, case=dict(args=[a[:80] for a in c.args[:8]], n=len(c.args)),
+                                              impl=got, model=exp))
     return cases
 
 
@@ -998,7 +1048,10 @@ def mutation(ctx, res, n, binary=None, env=None, sanitizer=False, tag='mut'):
                 fr = frames_of(c.result[2].decode('latin-1'))
                 loc = fr[0] if fr else None
             if loc:
-                vs = [(re.sub(r'mutant:(\w+)$', 'mutant:at:' + loc.replace('\\', ''), k), d + ' in ' + loc, o, r) for k, d, o, r in vs]
+                # the xact/entry/draft commands run on a destroyed parse context (F46): a use after
+                # free surfaces in a different function from run to run, so the verb names the construct
+                where = ('xact-command:at:' if c.args and c.args[0] in ('xact', 'entry', 'draft') else 'at:') + loc.replace('\\', '')
+                vs = [(re.sub(r'mutant:(\w+)$', 'mutant:' + where, k), d + ' in ' + loc, o, r) for k, d, o, r in vs]
             else:
                 kind = line_kind(c.journal if isinstance(c.journal, bytes) else (c.journal or '').encode('latin-1'))
                 optsig = '+'.join(sorted(set(a for a in c.args[1:] if a.startswith('-') and a != '--now'))) or 'no-options'
@@ -1100,7 +1153,7 @@ def run(ctx, light=False):
               ('nesting', lambda: nesting(ctx, res)), ('division', lambda: division(ctx, res)),
               ('periods', lambda: periods(ctx, res)), ('truncated', lambda: truncated(ctx, res)),
               ('long_tokens', lambda: long_tokens(ctx, res)),
-              ('mutation', lambda: mutation(ctx, res, ctx.scale(4000, 12000)))]
+              ('mutation', lambda: mutation(ctx, res, ctx.scale(8000, 16000)))]
     if ctx.tier == 'thorough' and not light:
         phases.append(('sanitizer', lambda: sanitizer_tier(ctx, res, sites)))
     res.extra['phase_wall_s'] = {}
